@@ -62,12 +62,29 @@ package cmd
 //@ func parseAndFlattenNamespaces
 //@   property C09,C11,C18
 //@   ensures errSeen(parsePackageNamespaces) ==> result1 != nil
+//@   ensures the_root_is_flattened_from_an_empty_list: !errSeen(parsePackageNamespaces) ==> calls(flattenNamespaces) == 1 && lastArg(flattenNamespaces, 0) == lastResult(parsePackageNamespaces).r0 && len(result0) == len(lastResult(flattenNamespaces)) && (forall j in 0..len(result0) :: result0[j] == lastResult(flattenNamespaces)[j])
 
 //@ func parsePackageNamespaces
 //@   property C09,C11,C18
 //@   invariant 0: !errSeen(parsePackageNamespaces)
 //@   ensures parse_error_propagates: errSeen(dsl.ParsePackageContents) ==> result1 != nil
 //@   ensures import_error_propagates: errSeen(parsePackageNamespaces) ==> result1 != nil
+
+// Dependencies first: the namespaces reachable from ns that are not listed yet are returned as the lists of its
+// references, one after the other in the order of the import list, with ns itself last. dsl.Validate processes the
+// namespaces in this order and a namespace has to come after everything it imports (a list that is put in front of
+// what is already there places a package that two imports share behind one of its importers).
+//@ observe-args cmd.flattenNamespaces
+//@ func flattenNamespaces
+//@   property C18,C09
+//@   requires duplicate != nil
+//@   ensures a_namespace_is_listed_once: old(duplicate[ns]) ==> len(flat) == 0
+//@   ensures a_namespace_comes_after_its_references: !old(duplicate[ns]) ==> len(flat) >= 1 && flat[len(flat)-1] == ns
+//@   ensures the_namespace_is_marked: duplicate[ns]
+//@   ensures marks_are_kept: forall n *dsl.Namespace :: old(duplicate[n]) ==> duplicate[n]
+//@   invariant 0: duplicate[ns] && (forall n *dsl.Namespace :: old(duplicate[n]) ==> duplicate[n])
+//@   iteration 0: every_reference_is_flattened_with_the_same_marks: lastArg(flattenNamespaces, 0) == child && lastArg(flattenNamespaces, 1) == duplicate
+//@   iteration 0: the_list_of_a_reference_is_appended: len(next(flat)) == len(flat) + len(lastResult(flattenNamespaces)) && (forall j in 0..len(flat) :: next(flat)[j] == flat[j]) && (forall j in 0..len(lastResult(flattenNamespaces)) :: next(flat)[len(flat) + j] == lastResult(flattenNamespaces)[j])
 
 // Output and diagnostics may not depend on the iteration order of a Go map (C12): decided per `range` over a map.
 //@ map-order C12 package
